@@ -285,7 +285,7 @@ fn bptree_enum_thorough() {
 // opens again and holds the committed data.
 // Bound (stated): all sequences of <= `maxlen` steps from {open slot 0|1, close slot 0|1, drop slot 0|1,
 // commit through slot 0|1}, plus all sequences of `maxlen` + 1 steps that begin with [open 0, close 0]; two handles
-// on one directory; a closed handle stays alive (closed, not dropped) until its slot is opened again or dropped,
+// on one directory; a handle is dropped while a read transaction begun from it is still alive; a closed handle stays alive (closed, not dropped) until its slot is opened again or dropped,
 // so the second run of the shutdown path by Drop happens while another store may be live.
 // Other processes / process death are NOT exercised.
 fn dir_state(p: &std::path::Path, out: &mut Vec<(String, Vec<u8>)>) {
@@ -408,7 +408,12 @@ async fn exclusive_enum_impl(maxlen: usize, name: &str) {
 						}
 					}
 					LOp::Drop(s) => {
-						if slots[s].take().is_some() {
+						if let Some((t, closed)) = slots[s].take() {
+							// a read transaction begun from the store is still alive when the handle is dropped and
+							// goes out of scope right after it (readers hold a reference to the store's core)
+							let rd = if closed { None } else { t.begin().ok() };
+							drop(t);
+							drop(rd);
 							tokio::time::sleep(std::time::Duration::from_millis(60)).await;
 						}
 					}
